@@ -216,12 +216,31 @@ def _locals_of(fn) -> Set[str]:
   return out
 
 
+_EXPR_CACHE: Dict[int, tuple] = {}
+
+
 def _expr_body(h) -> Optional[ast.expr]:
+  """The expression a helper returns, if its body is `return <expr>` once its
+  own single-assignment temporaries are substituted (normalise.py)."""
+  key = id(h.node)
+  if key in _EXPR_CACHE and _EXPR_CACHE[key][0] is h.node:
+    return _EXPR_CACHE[key][1]
   body = _strip_doc(h.node.body)
+  out = None
   if len(body) == 1 and isinstance(body[0], ast.Return) and (
       body[0].value is not None):
-    return body[0].value
-  return None
+    out = body[0].value
+  elif body and isinstance(body[-1], ast.Return) and all(
+      isinstance(b, ast.Assign) for b in body[:-1]):
+    from fdlstatic import normalise  # pylint: disable=g-import-not-at-top
+    cp = copy.deepcopy(h.node)
+    normalise.eliminate_temps(cp)
+    body = _strip_doc(cp.body)
+    if len(body) == 1 and isinstance(body[0], ast.Return) and (
+        body[0].value is not None):
+      out = body[0].value
+  _EXPR_CACHE[key] = (h.node, out)  # keeps the node alive: ids stay unique
+  return out
 
 
 def _fix(node, at):
